@@ -20,7 +20,7 @@ CHECKS = {
             "Trusted: bus/PHY stub; convergence bound B_conv and stability window of DESIGN 5.4; observation through is_in_ring()/inspect_token_ring() and the bus trace only.",
             "deterministic simulation (seeded population plans and poll schedules) with a convergence-then-stability oracle"),
     "C03": ("dp", "fault_enumeration", "6 C03",
-            "Seeded search over DP configurations (1..3 peripherals, all option values) x fault plans (lost/damaged requests and replies, Byzantine replies of every shape, power cycles, fault flags, user diagnostics requests): a per-peripheral bring-up automaton driven only by requests on the wire (decoded by R1), replies actually delivered to the master and the master's events decides whether each Data_Exchange request was legal; every Set_Prm/Chk_Cfg/Slave_Diag request is compared byte by byte with what the configured options demand.",
+            "Seeded search over DP configurations (1..3 peripherals, all option values) x fault plans (random storms of lost/damaged requests and replies; every fourth run a systematic placement of one or two faults at the n-th request / n-th reply for every n of the bring-up - drop, bit flip, truncation, slave reset, power cycle, silence, user diagnostics request, fault flags, a lost request followed by a stray short confirmation, a negative acknowledgement followed by a diagnostics reply that claims readiness; Byzantine replies of every shape, power cycles, fault flags, user diagnostics requests): a per-peripheral bring-up automaton driven only by requests on the wire (decoded by R1), replies actually delivered to the master and the master's events decides whether each Data_Exchange request was legal; every Set_Prm/Chk_Cfg/Slave_Diag request is compared byte by byte with what the configured options demand.",
             "Trusted: reference slave R5, R1, the automaton; 'asked to be re-parameterised' is read as a decision of the master (a Set_Prm on the wire), the weaker reading.",
             "deterministic simulation with fault injection; bring-up automaton on the wire as oracle"),
     "C04": ("dp", "fault_enumeration", "6 C04",
@@ -28,7 +28,7 @@ CHECKS = {
             "Trusted: shadow bookkeeping, R5, R1. RDL/RDH/NR count as error statuses (no update allowed).",
             "deterministic simulation with fault injection; shadow-copy (reference model) oracle"),
     "C07": ("dp", "fault_enumeration", "6 C07",
-            "Fault phase (storms of drops/bit flips/truncations/duplicates, power cycles, Byzantine replies, fault flags, user calls) then a fault-free phase with conforming reference slaves: bounded liveness - within K = 4*(max_retry+3)+8 DP cycles every healthy peripheral is_running() again AND its reference slave is in Data_Exchange locked by this master (with Online and Configured reported if it had gone Offline), switched-off ones are !is_live(); a panic of the master counts.",
+            "Fault phase (storms of drops/bit flips/truncations, the systematic single/double fault placement of C03, stray short confirmations, power cycles, Byzantine replies, fault flags, user calls; peers with delimiter-like payloads and non-canonical SD2 encoding) then a fault-free phase with conforming reference slaves: bounded liveness - within K = 4*(max_retry+3)+8 DP cycles every healthy peripheral is_running() again AND its reference slave is in Data_Exchange locked by this master (with Online and Configured reported if it had gone Offline), switched-off ones are !is_live(); a panic of the master counts.",
             "Trusted: R5 as the definition of a conforming slave incl. FCB retry detection; healthy = powered, matching ident/config/lengths, max_tsdr within the margin of DESIGN 5.1/5.8, watchdog satisfiable by the bus cycle.",
             "deterministic simulation with fault injection; bounded-liveness oracle after faults stop"),
     "C08": ("dp", "fault_enumeration", "6 C08",
@@ -52,11 +52,11 @@ CHECKS = {
             "Trusted: call-log probe around every application, token holder derived from token telegrams on the bus.",
             "deterministic simulation (seeded schedules and application programs); application call model as oracle"),
     "C11": ("adv", "fault_enumeration", "6 C11",
-            "One real station against the semi-cooperative adversary node (plays predecessor, successor, stranger, invalid addresses, answers or ignores GAP polls and token passes, stays silent for sub-slot / slot / time-out lengths, sends garbage), plus rings of 3..5 real stations with crashes biased to the highest / lowest address: every transmission the station starts without being asked must be justified (token from the registered predecessor, second offer of a stranger, never while listening, or a claim after its silence time-out); token from the predecessor + silent bus => it transmits within 3P+33bit; after its own pass: retransmission no earlier than one slot time, at most two, then the silent successor is removed and the token goes to the next station of the list (or to itself); a heard successor is never removed.",
+            "One real station against the semi-cooperative adversary node (plays predecessor, successor, stranger, invalid addresses, answers or ignores GAP polls and token passes, stays silent for sub-slot / slot / time-out lengths, sends garbage), plus rings of 3..5 real stations with crashes biased to the highest / lowest address: every transmission the station starts without being asked must be justified (token from the predecessor registered at that moment, second offer of a stranger, never while listening, never after it gave its token up on hearing another station, or a claim after its silence time-out); token from the predecessor + silent bus => it transmits within 3P+33bit; after its own pass: retransmission no earlier than one slot time, at most two and only if not a single byte reached the station since the previous attempt, then the silent successor is removed and the token goes to the next station of the list (or to itself); a heard successor is never removed.",
             "Trusted: adversary stub, consumption log of the harness PHY (what the station consumed per poll), registered predecessor sampled before/after the consuming poll and, when several telegrams were consumed in one poll, recomputed telegram by telegram with the list-of-active-stations model R3. The claim rule here ignores undecodable bytes (lenient; the exact rule is C01's).",
             "deterministic simulation with an adversarial peer; hand-over model as oracle"),
     "C12": ("adv+ring", "fault_enumeration", "6 C12",
-            "Rings of 1..4 real stations (staged joins, leaves, slaves that answer status polls inside the GAPs) and single stations against the (mostly polite) adversary: every own FDL status request must target the open interval (TS,NS) below HSA as it is at that moment; one per token visit except the complete contiguous scan after a claim; >= G token visits between sweeps; every GAP address polled within gap size + G + 3 visits; a ready/in-ring answer makes the replier the destination of the next token. Status replies of real stations: only to a request addressed to them that they consumed last, to the requester, within the slot time when the bus stays silent; 'ready' only after two identical witnessed rotations (R3 model over the consumed token passes) and only to the predecessor, 'in ring' only if in the ring before, not 'not ready' when in the ring or after three identical rotations when asked by the predecessor.",
+            "Rings of 1..4 real stations (staged joins, leaves, slaves that answer status polls inside the GAPs) and single stations against the (mostly polite) adversary: every own FDL status request must target the open interval (TS,NS) below HSA as it is at that moment; one per token visit except the complete contiguous scan after a claim; >= G token visits between sweeps; every GAP address polled within gap size + G + 3 visits; a ready/in-ring answer makes the replier the destination of the next token. Status replies of real stations: only to a request addressed to them that they consumed last, to the requester, within the slot time when the bus stays silent; 'ready' and 'in ring' only if, since the station last went online (set_offline/set_online cycles included), it has claimed the token or its list of active stations was verified by the operational two-rotation model R3 over the token passes it consumed; 'ready' only to its registered predecessor, 'in ring' only if in the ring before, not 'not ready' when in the ring or after three identical rotations when asked by the predecessor.",
             "Trusted: R3/R4 models, consumption log; visit / sweep accounting restarts after collisions, garbage or tokens offered while holding (rules are judged in calm periods).",
             "deterministic simulation (real rings and adversarial peer); GAP model and status-reply model as oracles"),
     "C05": ("adv+dp+ring", "fault_enumeration", "6 C05",
@@ -68,11 +68,11 @@ CHECKS = {
             "Trusted: R1 (written from the frame format), the damage injector. Token telegrams carry no checksum and are exempt from the 'different telegram' clause.",
             "deterministic simulation with fault injection on a byte stream; reference decoder as oracle"),
     "C16": ("rx", "exploration", "6 C16",
-            "Sequences of valid telegrams (token, SC, SD1/SD2/SD3 of all lengths, back to back or separated) x byte availability (exact wire timing, bursts, whole frames) x receiver poll instants x choice of receive_telegram / receive_all_telegrams / poll_pending_received_bytes per poll, over the harness queue PHY and over the crate's SimulatorPhy. Every receive_data call of the helpers is judged against R1 on the same buffer (telegram delivered iff complete, exactly its length dropped, nothing dropped from an incomplete telegram, is_last_telegram iff nothing is buffered behind it, return values); at the end exactly the sent telegrams were delivered in order, once; a telegram that arrives on a buffer emptied by a discard is delivered.",
+            "Sequences of valid telegrams (token, SC, SD1/SD2/SD3 of all lengths, back to back or separated) x byte availability (exact wire timing, bursts, whole frames) x receiver poll instants x choice of receive_telegram / receive_all_telegrams / poll_pending_received_bytes per poll, over the harness queue PHY and over the crate's SimulatorPhy; junk bursts that do not start like a telegram must be dropped at once. Every receive_data call of the helpers is judged against R1 on the same buffer (telegram delivered iff complete, exactly its length dropped, nothing dropped from an incomplete telegram, is_last_telegram iff nothing is buffered behind it, return values); at the end exactly the sent telegrams were delivered in order, once; a telegram that arrives on a buffer emptied by a discard is delivered.",
             "Trusted: R1, the spy wrapper around receive_data (the provided trait methods run unmodified on top of it).",
             "deterministic simulation (seeded chunking and poll schedules); stream model as oracle"),
     "C18": ("scan", "fault_enumeration", "6 C18",
-            "One real station running LiveList and/or DpScanner (alone, with a second real master, with further applications) against a population of reference responders (answering with OK or any other response status) / DP slaves over addresses 0..125 that appear and disappear, with lost telegrams: only addresses 0..125 are probed, in sweep order; the event of every poll must equal what the live-set model R8 derives from the call log (an address is live iff it answered its last probe): Discovered/Found, Requery, Lost alternate per address; after the population has been quiet for two complete sweeps iter_stations() / the Found-minus-Lost set equals the answering stations (minus the scanner) with their ident numbers.",
+            "One real station running LiveList and/or DpScanner (alone, with a second real master, with further applications) against a population of reference responders (answering with OK or any other response status) / DP slaves over addresses 0..125 that appear and disappear, with lost telegrams: only addresses 0..125 are probed, in sweep order; the event of every poll must equal what the live-set model R8 derives from the call log (an address is live iff it answered its last probe): Discovered/Found, Requery, Lost alternate per address; a probe that was answered or timed out is never repeated (the sweep advances); after the population has been quiet for two complete sweeps iter_stations() / the Found-minus-Lost set equals the answering stations (minus the scanner) with their ident numbers.",
             "Trusted: reference responders, call-log probe. Faults are losses only (the quantifier); corruption can fabricate a short confirmation, see DESIGN section 7 observation O2.",
             "deterministic simulation with fault injection (lost telegrams, population histories); live-set model as oracle"),
 }
